@@ -9,6 +9,8 @@ The correspondence of those models with the Go code is checked by `checks/C04.py
 import Banyan.Lemmas.C04Inv12
 import Banyan.Lemmas.C04Atomic
 import Banyan.Lemmas.C04RecSpec
+import Banyan.Lemmas.C04AccBridge
+import Banyan.Lemmas.C04Pub
 
 namespace Banyan.C04
 open Banyan.FS
@@ -72,7 +74,7 @@ theorem crash_recovers_power (e : Nat) (os : List Op) (o : Op) (k : Nat) (t : Tr
   rw [ht]
   exact recoversOK_of_inv h hN hd
 
-/-- both crash models at once (the proved part of `crash_recovers_prefix`) -/
+/-- both crash models at once (the structural part of `crash_recovers_prefix` below) -/
 theorem crash_recovers_prefix_partial (e : Nat) (os : List Op) (o : Op) (k : Nat) (t : Tree)
     (hc : t = crashKill (cutState e os o k) ∨ crashPower (cutState e os o k) t) : RecoversOK t := by
   rcases hc with rfl | hc
@@ -85,24 +87,68 @@ def ackedAt (e : Nat) (os : List Op) : List Nat := (histTbl { epoch := e } os).a
 /-- the batches covered by file parts of a table state (what its last publication covers) -/
 def coveredBy (tb : Tbl) : List Nat := (tb.parts.filter (fun p => !p.mem)).flatMap (·.batches)
 
-/-- has the manifest publication of this step prefix completed (rename followed by the root fsync)? -/
-def pubDone : List Step → Bool
-  | [] => false
-  | .rename [.tmp (.snp _)] [.snp _] :: rest => rest.contains (.fsyncdir []) || pubDone rest
-  | _ :: rest => pubDone rest
+/-- the batches a recovery result serves -/
+def servedBatches (r : Rec) : List Nat := r.parts.flatMap (·.2)
 
-/-- The full statement of the property on the model: in addition to `RecoversOK`, the batches served are a
-    prefix of the acknowledged batches and contain every batch covered by the last durably published
-    manifest.  (Not proved here — see `checks/C04.design.md`: established on the implementation's and the
-    model's recovery results by the check's oracle for every generated crash state.) -/
-def crash_recovers_prefix_Statement : Prop :=
-  ∀ (e : Nat) (os : List Op) (o : Op) (k : Nat) (t : Tree),
-    (t = crashKill (cutState e os o k) ∨ crashPower (cutState e os o k) t) →
+theorem mem_take_of_le {l : List Nat} {m n : Nat} (h : m ≤ n) {b : Nat} (hb : b ∈ l.take m) : b ∈ l.take n := by
+  have : l.take m = (l.take n).take m := by rw [List.take_take, Nat.min_eq_left h]
+  rw [this] at hb
+  exact List.mem_of_mem_take hb
+
+/-- **C04 on the model.**  Take any history `os`, one more operation `o`, any number `k` of its system calls,
+    and crash there — `kill -9`, or power loss with whatever subset of the un-fsynced directory operations and
+    whatever admissible file data survive.  Then startup (`recover` = `initTSTable` with the fix for F14)
+    * opens, and every served part is complete (`PartsComplete`);
+    * leaves nothing in the directory but the loaded manifest and the served parts (`NoLeftovers`);
+    * serves a prefix of the acknowledged batches (as a set: a permutation of `acked.take j`);
+    * which contains every batch covered by the file parts of the table before `o` — the last durably
+      published manifest —
+    * and, as soon as the `k` system calls include `o`'s own manifest publication (`opPre`, which ends with
+      `rename(<epoch>.snp.tmp, <epoch>.snp); fsync(root)`), every batch covered by the table after `o`. -/
+theorem crash_recovers_prefix (e : Nat) (os : List Op) (o : Op) (k : Nat) (t : Tree)
+    (hc : t = crashKill (cutState e os o k) ∨ crashPower (cutState e os o k) t) :
     ∃ r, recover t = .ok r ∧ PartsComplete r ∧
-      (∃ j, List.Perm (r.parts.flatMap (·.2)) ((ackedAt e os).take j)) ∧
-      (∀ b ∈ coveredBy (histTbl { epoch := e } os), b ∈ r.parts.flatMap (·.2)) ∧
-      (pubDone (((opSteps (histTbl { epoch := e } os) o).1).take k) = true →
-        ∀ b ∈ coveredBy (opSteps (histTbl { epoch := e } os) o).2, b ∈ r.parts.flatMap (·.2))
+      (∃ live, NoLeftovers live r ∧ (r.parts ≠ [] → r.epoch = live)) ∧
+      (∃ j, j ≤ (ackedAt e os).length ∧ (servedBatches r).Perm ((ackedAt e os).take j)) ∧
+      (∀ b ∈ coveredBy (histTbl { epoch := e } os), b ∈ servedBatches r) ∧
+      ((opPre (histTbl { epoch := e } os) o).length ≤ k →
+        ∀ b ∈ coveredBy (opSteps (histTbl { epoch := e } os) o).2, b ∈ servedBatches r) := by
+  obtain ⟨G, c, h, hq, h1, h2⟩ := acc_at_cut e os o k
+  have hcrash : ∃ (m : NS Name) (data : Nat → Content), t = resolve m data ∧ NSOK G m ∧
+      DataOK (cutState e os o k) data := by
+    rcases hc with rfl | hc
+    · exact inv_crashKill h
+    · exact inv_crashPower h t hc
+  obtain ⟨m, data, rfl, hN, hd⟩ := hcrash
+  obtain ⟨r, hr, hcomp, k', hck, hkA, hperm⟩ := served_batches_of_acc h.gwf hN h.stable hd hq.acc hq.zero
+  obtain ⟨r', hr', _, hleft⟩ := (recoversOK_of_inv h hN hd).opens
+  have hrr : r' = r := by rw [hr] at hr'; cases hr'; rfl
+  subst hrr
+  refine ⟨r', hr, hcomp, hleft, ⟨k', hkA, hperm⟩, ?_, ?_⟩
+  · intro b hb
+    have htb := tb_at e os
+    have hb' : b ∈ (histTbl { epoch := e } os).acked.take (fileBatches (histTbl { epoch := e } os)).length :=
+      htb.file.mem_iff.1 hb
+    exact hperm.mem_iff.2 (mem_take_of_le (Nat.le_trans h1 hck) hb')
+  · intro hk b hb
+    have htb := tb_after e os o
+    have hb' := htb.file.mem_iff.1 hb
+    obtain ⟨x, hx⟩ := opSteps_acked (histTbl { epoch := e } os) o
+    have hn1 : (fileBatches (opSteps (histTbl { epoch := e } os) o).2).length ≤
+        (histTbl { epoch := e } os).acked.length := Nat.le_trans (Nat.le_trans (h2 hk) hck) hkA
+    rw [hx, List.take_append_of_le_length hn1] at hb'
+    exact hperm.mem_iff.2 (mem_take_of_le (Nat.le_trans (h2 hk) hck) hb')
+
+/-- The same with the publication recognised in the system calls themselves: once the `k` system calls contain
+    `rename(<epoch>.snp.tmp, <epoch>.snp)` followed by `fsync(root)` (`pubDone`), every batch covered by the
+    new table state is served after the crash. -/
+theorem crash_recovers_published (e : Nat) (os : List Op) (o : Op) (k : Nat) (t : Tree)
+    (hc : t = crashKill (cutState e os o k) ∨ crashPower (cutState e os o k) t)
+    (hpub : pubDone (((opSteps (histTbl { epoch := e } os) o).1).take k) = true) :
+    ∃ r, recover t = .ok r ∧
+      ∀ b ∈ coveredBy (opSteps (histTbl { epoch := e } os) o).2, b ∈ servedBatches r := by
+  obtain ⟨r, hr, _, _, _, _, h3⟩ := crash_recovers_prefix e os o k t hc
+  exact ⟨r, hr, h3 (pubDone_take_opPre _ _ _ hpub)⟩
 
 /-! ### non-vacuity: a concrete history, a concrete cut, a concrete power-loss outcome -/
 
@@ -115,6 +161,22 @@ example : RecoversOK (resolve (cutState 256 [.batch 1, .flush, .batch 2] .flush 
     (cutState 256 [.batch 1, .flush, .batch 2] .flush 30).ddataOf) := by
   obtain ⟨G, h⟩ := inv_at_cut 256 [.batch 1, .flush, .batch 2] .flush 30
   exact crash_recovers_power 256 _ _ 30 _ (crashPower_durable _ h.dataPrefix)
+
+/-- the premises of `crash_recovers_prefix` are satisfiable and its conclusion has content: after batches 1 and 2,
+    a crash right after the second flush's manifest publication (its first 44 system calls) serves both -/
+example : ∃ r, recover (crashKill (cutState 256 [.batch 1, .flush, .batch 2] .flush 44)) = .ok r ∧
+    1 ∈ servedBatches r ∧ 2 ∈ servedBatches r := by
+  obtain ⟨r, hr, _, _, _, _, h3⟩ := crash_recovers_prefix 256 [.batch 1, .flush, .batch 2] .flush 44 _ (Or.inl rfl)
+  exact ⟨r, hr, h3 (by decide) 1 (by decide), h3 (by decide) 2 (by decide)⟩
+
+/-- … while one system call earlier (the root directory not yet fsynced) a power loss may lose the rename: only
+    batch 1, covered by the previous manifest, is guaranteed -/
+example : ∃ r, recover (resolve (cutState 256 [.batch 1, .flush, .batch 2] .flush 43).dur
+    (cutState 256 [.batch 1, .flush, .batch 2] .flush 43).ddataOf) = .ok r ∧ 1 ∈ servedBatches r := by
+  obtain ⟨G, h⟩ := inv_at_cut 256 [.batch 1, .flush, .batch 2] .flush 43
+  obtain ⟨r, hr, _, _, _, h2, _⟩ := crash_recovers_prefix 256 [.batch 1, .flush, .batch 2] .flush 43 _
+    (Or.inr (crashPower_durable _ h.dataPrefix))
+  exact ⟨r, hr, h2 1 (by decide)⟩
 
 /-! ## 4. the function as written leaves leftovers (finding F14) -/
 
